@@ -38,6 +38,7 @@ def ev(src, env):
 
 class C05(object):
     id = 'C05'
+    anchors = ('Sector.GetVariableName', 'Model._FixAliases', 'Sector._CreateFinalEquations', 'Model._CreateFinalEquations', 'Model._RegisterAlias')
     title = 'Generated system is closed, canonical and free of placeholder names'
     rule = ('one case = one random model specification plus a placeholder-embedding driver: K names are requested through '
             'GetVariableName before main() (placeholders; for half of the cases some after a manual '
